@@ -844,22 +844,37 @@ where
         let capacity = entries.len();
         let index = (hash as usize) & *mask;
 
-        // Linear probing to find slot
+        // Linear probing to find slot. A tombstone may only be reused once the probe
+        // has shown that the key is not stored further along the path, otherwise the
+        // key would end up in the table twice.
+        let mut first_tombstone: Option<usize> = None;
+        let mut target: Option<usize> = None;
         for i in 0..capacity {
             let probe_index = (index + i) & *mask;
             let entry = &mut entries[probe_index];
 
-            if entry.hash == 0 || entry.hash == u64::MAX {
-                // Empty slot or tombstone, insert here
-                entry.key = key;
-                entry.value = value;
-                entry.hash = hash;
-                return Ok(None);
+            if entry.hash == 0 {
+                // Empty slot: the key is absent
+                target = Some(first_tombstone.unwrap_or(probe_index));
+                break;
+            } else if entry.hash == u64::MAX {
+                // Tombstone, remember the first one and keep searching
+                if first_tombstone.is_none() {
+                    first_tombstone = Some(probe_index);
+                }
             } else if entry.hash == hash && entry.key == key {
                 // Key exists, update value
                 let old_value = std::mem::replace(&mut entry.value, value);
                 return Ok(Some(old_value));
             }
+        }
+
+        if let Some(slot) = target.or(first_tombstone) {
+            let entry = &mut entries[slot];
+            entry.key = key;
+            entry.value = value;
+            entry.hash = hash;
+            return Ok(None);
         }
 
         // Table is full, need to resize
